@@ -14,8 +14,8 @@ whole-file loops are tied to these per-experiment functions by `Props/C10.lean` 
 `parsed_list_sample_depends_on_own_entry`).
 
 Not full strength for YAML: a label that is not a YAML string (`labels: [1, 2]`) is stored and returned unchanged and
-the run aborts in `write_string` — `YamlLabelsAreGroups` is false (`yaml_labels_are_groups_witness`, replayed on the real
-code), `yaml_labels_are_groups_partial` is the statement for string labels.
+the run aborted in `write_string` on the pinned tree — `YamlLabelsAreGroupsOrig` is false (`yaml_labels_are_groups_orig_witness`,
+replayed on the real code); the repaired parser stores `str(label)`: `yaml_labels_are_groups` holds at full strength.
 -/
 import IsoVerif.Model.C09Labels
 import IsoVerif.Lemmas.C09Labels
@@ -300,16 +300,30 @@ theorem yaml_entry_labels (e : YamlEntry) (n : String) (s : ParsedSample) (h : p
 /-- full-strength statement for YAML labels: whatever scalar the user wrote as a label is usable as a group -/
 def YamlLabelsAreGroups : Prop := ∀ v : TagVal, ∃ s, yamlLabelGroup v = .ok s
 
-/-- false of model and code: an integer label (`labels: [1, 2]`) is not a string; the run aborts with `TypeError` in
-    `write_string` (replayed on the real parser and on the real pipeline by the oracle) -/
-theorem yaml_labels_are_groups_witness : ¬ YamlLabelsAreGroups := by
+/-- **yaml_labels_are_groups** (repaired code): every YAML label is a group; a string label is the group itself, any other
+    scalar is grouped under its printed value (`labels: [1, 2]` → groups `"1"`, `"2"`) -/
+theorem yaml_labels_are_groups : YamlLabelsAreGroups ∧ (∀ v, yamlLabelGroup v = .ok v.render) ∧
+    (∀ s, yamlLabelGroup (.str s) = .ok s) ∧ (∀ i : Int, yamlLabelGroup (.int i) = .ok (toString i)) :=
+  ⟨fun v => ⟨v.render, rfl⟩, fun _ => rfl, fun _ => rfl, fun _ => rfl⟩
+
+/-- distinct integer labels stay distinct groups (`str` of an integer is injective), so two files share a group iff
+    their labels print alike -/
+example : yamlLabelGroup (.int 1) = .ok "1" ∧ yamlLabelGroup (.int 10) = .ok "10" ∧ yamlLabelGroup (.str "rep") = .ok "rep" := by
+  decide
+
+/-- the statement for the pinned tree (labels stored unchanged) -/
+def YamlLabelsAreGroupsOrig : Prop := ∀ v : TagVal, ∃ s, yamlLabelGroupOrig v = .ok s
+
+/-- false of the pinned tree (model and code): an integer label (`labels: [1, 2]`) is not a string; the run aborts with
+    `TypeError` in `write_string` (replayed on the real parser and on the real pipeline by the oracle) -/
+theorem yaml_labels_are_groups_orig_witness : ¬ YamlLabelsAreGroupsOrig := by
   intro h
   obtain ⟨s, hs⟩ := h (.int 1)
   cases hs
 
-/-- … and holds exactly for the entries whose labels are YAML strings -/
-theorem yaml_labels_are_groups_partial (ls : List TagVal) (strs : List String) (h : yamlLabelsStr ls = some strs) :
-    ls = strs.map TagVal.str ∧ ∀ v ∈ ls, ∃ s ∈ strs, yamlLabelGroup v = .ok s := by
+/-- … where it held exactly for the entries whose labels are YAML strings; on those the repair changes nothing -/
+theorem yaml_labels_are_groups_orig_partial (ls : List TagVal) (strs : List String) (h : yamlLabelsStr ls = some strs) :
+    ls = strs.map TagVal.str ∧ ∀ v ∈ ls, ∃ s ∈ strs, yamlLabelGroupOrig v = .ok s ∧ yamlLabelGroup v = .ok s := by
   induction ls generalizing strs with
   | nil =>
     simp only [yamlLabelsStr, Option.some.injEq] at h
@@ -329,7 +343,7 @@ theorem yaml_labels_are_groups_partial (ls : List TagVal) (strs : List String) (
         refine ⟨by rw [h1]; simp, ?_⟩
         intro w hw
         rcases List.mem_cons.mp hw with rfl | hw
-        · exact ⟨s, by simp, rfl⟩
+        · exact ⟨s, by simp, rfl, rfl⟩
         · obtain ⟨s', hs', he⟩ := h2 w hw
           exact ⟨s', by simp [hs'], he⟩
 
